@@ -109,3 +109,5 @@ SPEC = dict(
                   'vlib/cxx2c.py idiom map'] + ND_TRUST,
     assumptions=['NDSize rank <= 32', 'ndsize_t arithmetic is 64-bit modular (bit-precise)'],
 )
+
+SPEC['assumptions'] = list(SPEC.get('assumptions', [])) + ['session 3: fill_pad_dim - the axis is abstracted to the coordinates the code reads, the vectors are ghost records of what is appended; that the loop visits the dimensions in order (appended entry lands at position i) is by inspection']
